@@ -240,6 +240,26 @@ def run(ctx):
         ctx.driver.add_schema(info)
         sid = info.lean_id
         docs = [gen.gen_doc(rng, schema, budget=rng.choice([6, 12, 25])) for _ in range(ctx.budget(5, 10))]
+        # aimed: the *shared* mark a type hands out when it is created without attributes (`MarkType.create()` /
+        # `schema.mark(name)`: one instance per type whose attributes all have defaults) — its JSON, and the JSON of a text
+        # node carrying it, must not alias the instance's attribute object (which holds the schema's default values)
+        for mt in schema.marks.values():
+            stc, shared = outcome(lambda: mt.create())
+            if stc != "ok" or (mt.attrs and any(not a.has_default for a in mt.attrs.values())):
+                continue
+            carriers = [("mark", shared)]
+            if "text" in schema.nodes:
+                carriers.append(("node", schema.text("x", [shared])))
+            for kind_, obj_ in carriers:
+                ctx.count("shared-default-mark:" + kind_)
+                want = canon(obj_.to_json())
+                j_ = obj_.to_json()
+                mutate_all(j_)
+                again = canon(obj_.to_json())
+                fresh = canon(mt.create().to_json())
+                if again != want or fresh != canon(shared.to_json()) or (kind_ == "mark" and fresh != want):
+                    ctx.violation("aliasing", f"{kind_}: the JSON of the shared default mark of type {mt.name} aliases the live attribute object",
+                                  {"schema": info.name, "kind": kind_, "mark_type": mt.name, "json": json.loads(want), "after_mutating_the_json": json.loads(again)})
         for d in docs:
             if ctx.time_left() < 0:
                 break
